@@ -44,3 +44,6 @@ pub fn vx_string_from(s: &str) -> (r: String) { s.to_string() }
 pub fn vx_lossy_string(b: &[u8]) -> (r: String) { String::new() }
 #[verifier::external_body]
 pub fn vx_str_contains(s: &String, pat: &str) -> (r: bool) { s.contains(pat) }
+// format! whose format string has literal text outside the placeholders: the result is never empty
+#[verifier::external_body]
+pub fn vx_fmt_nonempty() -> (r: String) ensures r@.len() > 0 { String::from("x") }
